@@ -414,12 +414,31 @@ class Visitor(ast.NodeVisitor):
             self.recomputed_values[node] = joined_str
             return joined_str
 
+    def _visit_elements_of_display(self, elts: List[ast.expr]) -> List[Any]:
+        """Visit the elements of a list, tuple or set display and unpack the starred ones."""
+        recomputed_elts = []  # type: List[Any]
+        for elt in elts:
+            if isinstance(elt, ast.Starred):
+                # Visit the value of the starred node as there is no value to be recomputed for the starred
+                # node itself.
+                starred_value = self.visit(node=elt.value)
+
+                # Please see "NOTE ABOUT PLACEHOLDERS AND RE-COMPUTATION"
+                if starred_value is PLACEHOLDER:
+                    recomputed_elts.append(PLACEHOLDER)
+                else:
+                    recomputed_elts.extend(starred_value)
+            else:
+                recomputed_elts.append(self.visit(node=elt))
+
+        return recomputed_elts
+
     def visit_List(self, node: ast.List) -> Union[List[Any], Placeholder]:
         """Visit the elements and assemble the results into a list."""
         if isinstance(node.ctx, ast.Store):
             raise NotImplementedError("Can not compute the value of a Store on a list")
 
-        recomputed_elts = [self.visit(node=elt) for elt in node.elts]
+        recomputed_elts = self._visit_elements_of_display(elts=node.elts)
 
         # Please see "NOTE ABOUT PLACEHOLDERS AND RE-COMPUTATION"
         if any(recomputed_elt is PLACEHOLDER for recomputed_elt in recomputed_elts):
@@ -433,7 +452,7 @@ class Visitor(ast.NodeVisitor):
         if isinstance(node.ctx, ast.Store):
             raise NotImplementedError("Can not compute the value of a Store on a tuple")
 
-        recomputed_elts = tuple(self.visit(node=elt) for elt in node.elts)
+        recomputed_elts = tuple(self._visit_elements_of_display(elts=node.elts))
         # Please see "NOTE ABOUT PLACEHOLDERS AND RE-COMPUTATION"
         if any(recomputed_elt is PLACEHOLDER for recomputed_elt in recomputed_elts):
             return PLACEHOLDER
@@ -443,7 +462,7 @@ class Visitor(ast.NodeVisitor):
 
     def visit_Set(self, node: ast.Set) -> Union[Set[Any], Placeholder]:
         """Visit the elements and assemble the results into a set."""
-        recomputed_elts = set(self.visit(node=elt) for elt in node.elts)
+        recomputed_elts = set(self._visit_elements_of_display(elts=node.elts))
         # Please see "NOTE ABOUT PLACEHOLDERS AND RE-COMPUTATION"
         if any(recomputed_elt is PLACEHOLDER for recomputed_elt in recomputed_elts):
             return PLACEHOLDER
@@ -455,8 +474,20 @@ class Visitor(ast.NodeVisitor):
         """Visit keys and values and assemble a dictionary with the results."""
         recomputed_dict = dict()  # type: Dict[Any, Any]
         for key, val in zip(node.keys, node.values):
-            assert isinstance(key, ast.AST)
             assert isinstance(val, ast.AST)
+
+            if key is None:
+                # The value is a mapping to be unpacked (``**val``).
+                unpacked = self.visit(node=val)
+
+                # Please see "NOTE ABOUT PLACEHOLDERS AND RE-COMPUTATION"
+                if unpacked is PLACEHOLDER:
+                    return PLACEHOLDER
+
+                recomputed_dict.update(unpacked)
+                continue
+
+            assert isinstance(key, ast.AST)
 
             recomputed_dict[self.visit(node=key)] = self.visit(node=val)
 
